@@ -703,6 +703,13 @@ def r13(ctx, facts):
                       "false" if want_false else "true", "written although the type has none" if want_false else "refused with NotEmptyable"), b.span)
 
 
+def r14(ctx, facts):
+    """shared with C16 (stated there as R6): the derived by-name UDT serializer writes the nulls owed for UDT fields the struct does
+    not have exactly once - the cell is the wire encoding of the value, field for field"""
+    from .c16 import r6 as c16_r6
+    c16_r6(ctx, ctx.facts("family"))
+
+
 def check(ctx):
     facts = inline_view(ctx.facts("default"))
     A = Accept(facts)
@@ -711,7 +718,7 @@ def check(ctx):
         tabs = r1(ctx, facts, A)
     except AnchorLost as ex:
         ctx.rule("R1x", "anchors").fail("anchor-lost", str(ex))
-    for fn in ((lambda c, f: r2(c, f, tabs)) if tabs else None, r3, r4, r5, r6, r7, r8, r9, r10, r11, r12, r13):
+    for fn in ((lambda c, f: r2(c, f, tabs)) if tabs else None, r3, r4, r5, r6, r7, r8, r9, r10, r11, r12, r13, r14):
         if fn is None:
             continue
         try:
